@@ -1,7 +1,7 @@
 (* extraction of the C06 executable model; ExtrOcamlBasic only *)
 Require Extraction.
 Require Import ExtrOcamlBasic.
-Require Import Base Lexer SpellDecision Tables_f24 C06Words C06AlnumProofs C06DictProofs C06Sentence C06SentenceDot C06SentenceContr.
+Require Import Base Lexer SpellDecision Tables_f24 C06Words C06AlnumProofs C06DictProofs C06Sentence C06SentenceDot C06SentenceContr C06SentenceContrDot.
 Extraction Language OCaml.
 Extraction "../ocaml/gen/c06_model.ml" run_lint_doc run_accept_facts f24_dict f24_words w_socio_political f24_run
-  run_doc_words run_one_word f24_flags dict_word_count dict_digest dict_nonsimple_entries simple_wordb alnum_wordb run_sentence run_sentence_dot run_sentence_contr.
+  run_doc_words run_one_word f24_flags dict_word_count dict_digest dict_nonsimple_entries simple_wordb alnum_wordb run_sentence run_sentence_dot run_sentence_contr run_sentence_contr_dot.
